@@ -830,6 +830,28 @@ func (c *ExecCtx) havocHeaps(st *State, fn *types.Func, recv *Val, args []Val) {
 			return
 		}
 	}
+	// map objects of the unit's function no callee can reach (confined.go)
+	type keep struct {
+		heap string
+		ref  *Term
+		val  *Term
+	}
+	var keeps []keep
+	for _, r := range c.confinedRefs(st) {
+		if mt, ok := unalias(r.Ty).Underlying().(*types.Map); ok {
+			hn, vn, ln, ks, vs := c.mapHeaps(mt)
+			for _, p := range [][2]string{{hn, ArraySort(SInt, ArraySort(ks, SBool))}, {vn, ArraySort(SInt, ArraySort(ks, vs))}, {ln, ArraySort(SInt, SInt)}} {
+				keeps = append(keeps, keep{p[0], r.T, Select(u.heapGet(st, p[0], p[1]), r.T)})
+			}
+		}
+	}
+	defer func() {
+		for _, k := range keeps {
+			if cur, ok := st.heaps[k.heap]; ok {
+				u.heapSet(st, k.heap, Store(cur, k.ref, k.val))
+			}
+		}
+	}()
 	// which heaps can the callee reach from its receiver and arguments?
 	reach := newReach(u.eng.tm)
 	reach.eng = u.eng
